@@ -71,7 +71,9 @@ type Server struct {
 
 // Serves the connection once we accepted it
 func (server *Server) serveConn(conn net.Conn) {
-	defer recover()
+	// a panic raised while serving this connection (e.g. by a TLS callback
+	// or a connection state hook) must not take the whole process down
+	defer server.recoverPanic(conn)
 	defer conn.Close()
 
 	hijackedConn := hack.NewHijackClientHelloConn(conn)
@@ -132,6 +134,21 @@ func (server *Server) serveConn(conn net.Conn) {
 	}
 
 	server.metricsRequestsTotalInc("1", cs.NegotiatedProtocol)
+}
+
+// recoverPanic must be deferred directly: recover only works when it is
+// called by the deferred function itself.
+func (server *Server) recoverPanic(conn net.Conn) {
+	if r := recover(); r != nil {
+		// the logger may be what panicked
+		defer func() { recover() }()
+		server.logf("panic serving %s: %v", conn.RemoteAddr(), r)
+	}
+}
+
+func (server *Server) recoverPanicValue(conn net.Conn, r any) {
+	defer func() { recover() }()
+	server.logf("panic serving %s: %v", conn.RemoteAddr(), r)
 }
 
 func (server *Server) tlsHandshakeWithTimeout(tlsConn *tls.Conn) error {
@@ -216,6 +233,21 @@ func (server *Server) setupServe() {
 			next = http.DefaultServeMux
 		}
 		server.HTTPServer.Handler = tlsStateHandler{next}
+
+		// net/http reports new HTTP/1.1 connections to the ConnState hook on
+		// the goroutine that accepts them: a panicking hook would end HTTP/1.1
+		// service altogether. Confine it to the connection.
+		if hook := server.HTTPServer.ConnState; hook != nil {
+			server.HTTPServer.ConnState = func(c net.Conn, state http.ConnState) {
+				defer func() {
+					if r := recover(); r != nil {
+						c.Close()
+						server.recoverPanicValue(c, r)
+					}
+				}()
+				hook(c, state)
+			}
+		}
 
 		server.http1ConnChannelListener = hack.NewChannelListener(server.ctx)
 		go server.serveHTTP1()
